@@ -109,6 +109,7 @@ class C02:
             "depth <= 3, copy/unpack, oversize and out-of-range additions; every accepted add is checked against the wiring reference. "
             "Non-trivial = an accepted add of a sub-circuit with >= 1 herald into a parent that already has >= 1 ancilla, or depth >= 2; "
             "distinct = distinct program JSON")
+    COQ_TARGETS = ["theories/Exec/RunCircuit.vo"]
     CHUNK = 40
     TRUSTED = ["Python floats vs exact rationals compared at 1e-9"]
     ASSUMPTIONS = ["the relative placement of new and old ancillas is left free by the property: the oracle accepts any placement"]
